@@ -277,6 +277,18 @@ func directedScenarios() []directedT {
 				{Kind: "cmd", Arg: "quit"}},
 			rules: []sched.Rule{{Point: "uci.complete.try", Occ: 1, Until: "uci.loop.exit", UntilOcc: 1, Timeout: h}},
 		},
+		{ // quit while a completion that has already won the compare-and-swap has not sent its lines yet
+			name: "quit-after-completion-won",
+			steps: []stepT{{Kind: "cmd", Arg: "position startpos"}, {Kind: "cmd", Arg: "go depth 1"}, {Kind: "release", K: 1, D: 1},
+				{Kind: "cmd", Arg: "quit"}},
+			rules: []sched.Rule{{Point: "uci.complete.won", Occ: 1, Until: "uci.loop.exit", UntilOcc: 1, Timeout: h, After: 3 * time.Millisecond, Late: true}},
+		},
+		{ // end of input while a completion has won and not sent
+			name: "eof-after-completion-won",
+			steps: []stepT{{Kind: "cmd", Arg: "position startpos"}, {Kind: "cmd", Arg: "go depth 1"}, {Kind: "release", K: 1, D: 1},
+				{Kind: "eof"}},
+			rules: []sched.Rule{{Point: "uci.complete.won", Occ: 1, Until: "uci.loop.exit", UntilOcc: 1, Timeout: h, After: 3 * time.Millisecond, Late: true}},
+		},
 		{ // end of input while a search is running
 			name: "eof-during-search",
 			steps: []stepT{{Kind: "cmd", Arg: "position startpos"}, {Kind: "cmd", Arg: "go depth 2"}, {Kind: "release", K: 1, D: 1},
